@@ -393,6 +393,28 @@ class Cases:
         return agg
 
 
+def cond_truth(cond):
+    """(tested expression with Not wrappers stripped, its truth value or None) for a recorded path condition on a bool."""
+    text, v, _bi, d = cond
+    neg = False
+    while isinstance(d, tuple) and d[0] == "un" and d[1] == "Not":
+        d = d[2]
+        neg = not neg
+    if v == 0:
+        t = False
+    elif isinstance(v, int):
+        t = True
+    elif isinstance(v, tuple) and v[0] == "not" and set(v[1]) == {0}:
+        t = True
+    elif isinstance(v, tuple) and v[0] == "not" and set(v[1]) == {1}:
+        t = False
+    else:
+        t = None
+    if t is not None and neg:
+        t = not t
+    return d, t
+
+
 def run(ix, body, inputs=None):
     c = Cases(ix, body, inputs)
     c.run()
